@@ -3,7 +3,7 @@ use crate::events::CircuitBreakerEvent;
 #[cfg(feature = "metrics")]
 use metrics::{counter, gauge, histogram};
 use std::collections::VecDeque;
-use std::sync::atomic::{AtomicU8, Ordering};
+use std::sync::atomic::{AtomicU64, AtomicU8, Ordering};
 use std::time::{Duration, Instant};
 
 /// Represents the state of the circuit breaker.
@@ -67,6 +67,46 @@ struct CallRecord {
     is_slow: bool,
 }
 
+/// Held by a call that was admitted as a half-open trial until its outcome is recorded.
+///
+/// If the call is dropped (or panics) before that, the guard marks the trial as abandoned so
+/// that a cancelled trial cannot keep the breaker half-open forever: the next admission check
+/// treats it like a failed trial and re-opens. Marks are tagged with the half-open episode
+/// they belong to, so a guard that outlives its episode does nothing.
+pub(crate) struct TrialGuard {
+    /// `(episode << 32) | trials abandoned in that episode`
+    released: std::sync::Arc<AtomicU64>,
+    episode: u32,
+    armed: bool,
+}
+
+impl TrialGuard {
+    /// The outcome of the trial has been recorded: the slot stays used.
+    pub(crate) fn disarm(mut self) {
+        self.armed = false;
+    }
+}
+
+impl Drop for TrialGuard {
+    fn drop(&mut self) {
+        if !self.armed {
+            return;
+        }
+        let mut current = self.released.load(Ordering::Acquire);
+        while (current >> 32) as u32 == self.episode {
+            match self.released.compare_exchange_weak(
+                current,
+                current + 1,
+                Ordering::AcqRel,
+                Ordering::Acquire,
+            ) {
+                Ok(_) => break,
+                Err(actual) => current = actual,
+            }
+        }
+    }
+}
+
 pub(crate) struct Circuit {
     state: CircuitState,
     state_atomic: std::sync::Arc<AtomicU8>,
@@ -79,6 +119,11 @@ pub(crate) struct Circuit {
     success_count: usize,
     total_count: usize,
     slow_call_count: usize,
+    // Half-open trial tracking: calls admitted in the current half-open episode, and the
+    // trials of that episode that were dropped before recording an outcome
+    half_open_admitted: usize,
+    half_open_episode: u32,
+    half_open_released: std::sync::Arc<AtomicU64>,
     // Outcomes (is_failure, is_slow) currently inside the count-based window, oldest first
     count_window: VecDeque<(bool, bool)>,
     // Time-based window tracking
@@ -111,6 +156,9 @@ impl Circuit {
             success_count: 0,
             total_count: 0,
             slow_call_count: 0,
+            half_open_admitted: 0,
+            half_open_episode: 0,
+            half_open_released: std::sync::Arc::new(AtomicU64::new(0)),
             count_window: VecDeque::new(),
             call_records: VecDeque::new(),
         }
@@ -402,6 +450,8 @@ impl Circuit {
             CircuitState::Open => {
                 if self.last_state_change.elapsed() >= config.wait_duration_in_open {
                     self.transition_to(CircuitState::HalfOpen, config);
+                    // This call is the first trial of the new half-open episode
+                    self.half_open_admitted = 1;
                     config
                         .event_listeners
                         .emit(&CircuitBreakerEvent::CallPermitted {
@@ -421,9 +471,25 @@ impl Circuit {
                 }
             }
             CircuitState::HalfOpen => {
-                let permitted =
-                    self.success_count + self.failure_count < config.permitted_calls_in_half_open;
+                // A trial that was dropped before it could record an outcome gives no evidence
+                // of recovery: treat it like a failed trial and re-open
+                let released = self.half_open_released.load(Ordering::Acquire);
+                if (released >> 32) as u32 == self.half_open_episode
+                    && released & 0xffff_ffff > 0
+                {
+                    self.transition_to(CircuitState::Open, config);
+                    config
+                        .event_listeners
+                        .emit(&CircuitBreakerEvent::CallRejected {
+                            pattern_name: config.name.clone(),
+                            timestamp: Instant::now(),
+                        });
+                    return false;
+                }
+                // Count the trials that were admitted, not only those that have completed
+                let permitted = self.half_open_admitted < config.permitted_calls_in_half_open;
                 if permitted {
+                    self.half_open_admitted += 1;
                     config
                         .event_listeners
                         .emit(&CircuitBreakerEvent::CallPermitted {
@@ -441,6 +507,19 @@ impl Circuit {
                 }
                 permitted
             }
+        }
+    }
+
+    /// Returns a guard for a call that `try_acquire` has just admitted while half-open.
+    pub(crate) fn trial_guard(&self) -> Option<TrialGuard> {
+        if self.state == CircuitState::HalfOpen {
+            Some(TrialGuard {
+                released: std::sync::Arc::clone(&self.half_open_released),
+                episode: self.half_open_episode,
+                armed: true,
+            })
+        } else {
+            None
         }
     }
 
@@ -528,6 +607,11 @@ impl Circuit {
         self.slow_call_count = 0;
         self.count_window.clear();
         self.call_records.clear();
+        // New episode: guards of earlier trials no longer release anything
+        self.half_open_admitted = 0;
+        self.half_open_episode = self.half_open_episode.wrapping_add(1);
+        self.half_open_released
+            .store((self.half_open_episode as u64) << 32, Ordering::Release);
     }
 
     fn evaluate_window<C>(&mut self, config: &CircuitBreakerConfig<C>) {
